@@ -9,6 +9,9 @@ BASELINE = ('cd /repo && /venv/bin/python -m pytest -ra -q -p no:cacheprovider '
 NOTE_A = ('World A glue mirrors Loader; virtual clock; canonical key argument '
           'in DESIGN 2.2; small-scope bounds (3-4 servers, <=5 instances, '
           'menus in the evidence).')
+NOTE_B = ('Fake ZooKeeper (mc/fakezk.py, semantics pinned by selftest) is the '
+          'trusted base; everything above the kazoo client API is real code; '
+          'virtual clock; 3 servers, <=4 instances.')
 TECH_STATEX = ('explicit-state model checking of the implementation (BFS over '
                'event histories, replay-built states, canonical dedup, '
                'recomputed-from-leaves oracle)')
@@ -43,6 +46,24 @@ CHECKS = {
     'C08': _s('BFS over down/up/frozen transitions and clock advances around '
               'the retention timeouts against a reference automaton on '
               'logical seconds.', '5/C08'),
+    'C09': _s('BFS over histories of ZooKeeper-level events driving the real '
+              'Master/ZkBackend/masterapi on an in-memory ZooKeeper, incl. '
+              'restarts and skipped cycles; after every init_schedule/'
+              'reschedule the whole /placement tree is compared with the '
+              'model (existence and content).', '5/C09', note=NOTE_B),
+    'C10': _s('For every state of a World-B BFS and every enabled event the '
+              'following publication step (reschedule or start-up of a new '
+              'master) is cut after each of its k storage writes; no double '
+              'record at the cut; a new master on the cut state must start, '
+              'pass its integrity check and publish its model.', '5/C10',
+              note=NOTE_B,
+              tech='explicit-state model checking of the implementation x '
+                   'exhaustive crash-point enumeration over the storage '
+                   'writes of each publication step'),
+    'C11': _s('At every state of a World-B BFS a fresh Master runs '
+              'load_model() on a copy of the stored tree and is compared '
+              'with every record under a healthy server.', '5/C11',
+              note=NOTE_B),
 }
 
 NOT_YET = 'check not built yet in this revision (planned, see DESIGN.md section 5)'
